@@ -17,6 +17,8 @@ TRIAGE={
  ("src/actor/network.rs","assert!(value > 0);"):"defensive assertion that never fires (counts of the multiset are >= 1 by construction: theorem C07_canonical)",
  ("src/checker.rs","let additional_info = if additional_info.is_empty() {"):"only the TEXT of the panic message of assert_discovery changes (whether the parenthesised hints are appended); which calls panic is unchanged",
  ("src/checker/on_demand.rs","if pending.len() > 1 && thread_count > 1 {"):"equivalent: with exactly one pending job `split_and_push` computes a piece size of 0 and publishes nothing",
+ ("src/checker/explorer.rs","if !self.properties.is_empty() {"):"REAL GAP, closed: the rows of /.states lost their `properties`; the harness validated them only when present. Now a row of a model with properties must carry them (the mutant is killed: `row-without-properties`)",
+ ("src/actor/spawn.rs","if e.kind() != std::io::ErrorKind::WouldBlock {"):"equivalent: only decides whether a log line is written",
  ("src/checker/explorer.rs","fingerprints.push_back(fingerprint);"):"equivalent: the deque is EMPTY at that point (branch `fingerprints.is_empty()`), front = back",
 }
 out=["# Mutation runs (tools/mutate.py)","",
